@@ -495,6 +495,25 @@ def dump_frame_res(case: dict, df, sym_table: List[str]) -> List[dict]:
     return dump_frame(df, sym_table)
 
 
+def frames_altered(case: dict, ta, frames: dict, sym_table) -> List[Any]:
+    """ranks whose loaded frame (primary columns, rows by id) is no longer what it was when `frames` was dumped: an analysis
+    must leave the trace it was given as it found it (the next analysis of the same object reads it)"""
+    out = []
+    for r, rows in frames.items():
+        try:
+            now = dump_frame_res(case, ta.t.get_trace(r), sym_table)
+        except Exception as e:
+            out.append([r, "re-reading the frame raised " + type(e).__name__ + ": " + str(e)[:120]])
+            continue
+        key = lambda x: x["idx"]
+        if sorted(now, key=key) != sorted(rows, key=key):
+            a = {x["idx"]: x for x in rows}
+            b = {x["idx"]: x for x in now}
+            diff = [(i, a.get(i), b.get(i)) for i in sorted(set(a) | set(b)) if a.get(i) != b.get(i)][:2]
+            out.append([r, f"{len(rows)} rows before, {len(now)} after; first differences {str(diff)[:300]}"])
+    return out
+
+
 # ----------------------------------------------------------------------------- evidence / findings / replay
 def load_known_findings() -> List[dict]:
     p = os.path.join(VERIF, "known_findings.json")
